@@ -157,6 +157,16 @@ func memText(sh memShape, d int64, has bool, style int) string {
 	if s == "" {
 		return fmt.Sprintf("0x%x", d)
 	}
+	// constant between / before the registers: [BASE-d+INDEX], [BASE+d+INDEX], [d+BASE]
+	if style == 6 && sh.Base != "" && sh.Index != "" && sh.Scale <= 1 {
+		if d < 0 {
+			return fmt.Sprintf("%s-%d+%s", sh.Base, -d, sh.Index)
+		}
+		return fmt.Sprintf("%s+%d+%s", sh.Base, d, sh.Index)
+	}
+	if style == 7 && d >= 0 {
+		return fmt.Sprintf("%d+%s", d, s)
+	}
 	switch style / 2 {
 	case 1: // split the constant around the registers: [a+REGS+b], a>=0
 		if d >= 2 {
@@ -252,7 +262,7 @@ var propC02 = &Prop[InstCase]{
 			imm = genImm(t, "imm")
 		}
 		mode := rapid.SampledFrom([]int{0, 16, 32}).Draw(t, "mode")
-		style := rapid.IntRange(0, 5).Draw(t, "style")
+		style := rapid.IntRange(0, 7).Draw(t, "style")
 		return mkMemCase(mode, c, sh, d, has, reg, imm, style)
 	},
 	Check: checkC02,
